@@ -48,3 +48,8 @@ mut("isclose_spatial_ignores_z", C + "spatial/isclose.py", "& lib.isclose(z1, z2
 mut("obj_energy_guard_removed", "src/vector/backends/object.py", 'if "energy" in coordinates and "t" not in generic_coordinates:', 'if "energy" in coordinates:', ["C06"], "E= together with energy= silently accepted")
 mut("obj_type_check_allows_bool", "src/vector/backends/object.py", "if not issubclass(type(value), numbers.Real) or isinstance(value, bool):", "if not issubclass(type(value), numbers.Real):", ["C06"], "booleans accepted as coordinates")
 mut("array_names_pz_not_3d", "src/vector/backends/numpy.py", 'elif any(x in ("z", "pz", "theta", "eta") for x in names):', 'elif any(x in ("z", "theta", "eta") for x in names):', ["C06"], "vector.array with pz builds a 2D vector carrying pz as an extra field")
+
+# --- algebra (C11) ------------------------------------------------------------------------------
+mut("numpy_true_divide_multiplies", "src/vector/backends/numpy.py", "result = inputs[0].scale(1 / inputs[1])", "result = inputs[0].scale(inputs[1])", ["C11"], "NumPy-backend '/' multiplies instead of dividing")
+mut("object_rmul_ignores_factor", "src/vector/backends/object.py", "result = inputs[1].scale(inputs[0])", "result = inputs[1].scale(1)", ["C11"], "object-backend  k * v  ignores k")
+mut("awkward_cbrt_4d_uses_mag", "src/vector/backends/awkward.py", 'behavior[numpy.cbrt, "Vector4D"] = lambda v: v.tau2**0.16666666666666666', 'behavior[numpy.cbrt, "Vector4D"] = lambda v: v.mag2**0.16666666666666666', ["C11"], "numpy.cbrt of a generic Awkward 4D vector uses mag instead of tau")
